@@ -94,6 +94,7 @@ func (processor *packetProcessor) Run(ctx context.Context) {
 							in.cb(in.publish)
 						}
 					}
+					vhook("publish.done", in.sender, err)
 				}
 			}
 		}(ctx)
@@ -115,6 +116,7 @@ func (processor *packetProcessor) publishHandler(ctx context.Context, sender str
 			publish: publish,
 			cb:      cb,
 		}:
+			vhook("publish.enq", sender)
 			return nil
 		case <-ctx.Done():
 			return ctx.Err()
